@@ -4,6 +4,7 @@ C13 — inertia 1 ignores the band; a gross blunder never drags the rhythm.
 import Mathlib.Analysis.Complex.ExponentialBounds
 import Wheatley.Props.C12
 import Wheatley.Model.World
+import Wheatley.Lemmas.Cli
 namespace Wheatley.C13
 open Generated
 
@@ -127,5 +128,13 @@ theorem expectation_used_once (r : Reg K) (wt : K → K) (reg : List (K × K × 
     intro x hx
     simp only [List.mem_filter] at hx
     simpa using hx.2
+
+/-! ### The command line (`Model/Cli.lean`: `console_main`) -/
+
+/-- The inertia is the last `-I` given, else the default - an explicit 0 or 1 included. -/
+theorem cli_inertia (c : Parse.Chars) (os : List Cli.Opt) (u : Option (List Char × List Char)) (cfg : Cli.Cfg)
+    (h : Cli.consoleMain c os u = .built cfg) :
+    cfg.inertia = (Cli.inertiasGiven os).getLast?.getD Generated.cliInertiaBits :=
+  (Cli.main_built c os u cfg h).2.2.2.2.1
 
 end Wheatley.C13
